@@ -11,7 +11,8 @@
 static BuildEngineImpl* g_impl; static RuleInfo *g_R, *g_W, *g_S, *g_D; static HTask *g_TR, *g_TW; static int g_waits = 0; static uint64_t g_cAfter, g_E; static uint8_t g_valAfter; static bool g_oo0, g_su0, g_wOrderOnly;
 static int g_scanCalls = 0, g_demandCalls = 0, g_prsr = 0, g_cancelCalls = 0; static RuleInfo* g_prsrRule = nullptr; static RuleInfo* g_demanded = nullptr;
 extern "C" RuleInfo* stub_getRuleInfoForKeyType(BuildEngineImpl* impl, const KeyType* key) { return VF_PART == 1 ? g_W : g_R; }   // the build key
-extern "C" RuleInfo* stub_getRuleInfoForKey(BuildEngineImpl* impl, uint64_t keyid) { VF_ASSERT(keyid == 48, "only the discovered dependency is looked up by id"); if (keyid != 48) VF_STOP(); return g_D; }
+static uint64_t g_kd = 48;
+extern "C" RuleInfo* stub_getRuleInfoForKey(BuildEngineImpl* impl, uint64_t keyid) { VF_ASSERT(keyid == g_kd, "only the discovered dependency is looked up by id"); if (keyid != g_kd) VF_STOP(); return g_D; }
 extern "C" bool stub_scanRule(BuildEngineImpl* impl, RuleInfo* r) { g_scanCalls++; return true; }
 extern "C" bool stub_demandRule(BuildEngineImpl* impl, RuleInfo* r) { g_demandCalls++; if (r == g_D) g_demanded = r; if (r == g_D) return true; return r->isComplete(impl); }
 extern "C" void stub_processRuleScanRequest(BuildEngineImpl* impl, BuildEngineImpl::RuleScanRequest* req) { g_prsr++; g_prsrRule = req->ruleInfo; }
@@ -49,7 +50,8 @@ extern "C" void harness_finish(void) {
   R.state = RuleInfo::StateKind::InProgressComputing; R.setPendingTaskInfo(tr); impl->numOutstandingUnfinishedTasks = 1;
   tr->requestedBy.reserve(2); tr->deferredScanRequests.reserve(2); tr->discoveredDependencies.keys.reserve(2); tr->discoveredDependencies.flags.reserve(2);
 #if VF_PART == 0
-  KeyID k48; k48._value = 48; tr->discoveredDependencies.push_back(k48, false, false);
+  g_kd = nondet_bool() ? 32 : 48;   // the discovered key may be one the task also requested (e.g. as a must-follow input)
+  KeyID k48; k48._value = g_kd; tr->discoveredDependencies.push_back(k48, false, false);
 #endif
   // W: waits for R (one request, flags symbolic)
   RuleInfo& W = newRuleInfo(64, nondet_u64()); g_W = &W; W.result.builtAt = 0;
@@ -89,7 +91,7 @@ static void checksAfterRelease() {
   VF_ASSERT(g_setKey == 16 && g_setBuiltAt == E && g_setComputedAt == g_cAfter && g_setVal == g_valAfter && g_setSig == R.rule->signature.value, "the record written is R's: built now, value/computedAt/signature as completion recorded them");
   VF_ASSERT(g_setNDeps == (VF_PART == 0 ? 2 : 1) && g_setDepKey[0] == 32 && g_setDepFlags[0] == ((g_oo0 ? 1 : 0) | (g_su0 ? 2 : 0)), "the record carries the dependency list of this execution, with flags");
 #if VF_PART == 0
-  VF_ASSERT(g_setDepKey[1] == 48 && g_setDepFlags[1] == 0, "discovered dependencies follow the requested ones in the record");
+  VF_ASSERT(g_setDepKey[1] == g_kd && g_setDepFlags[1] == 0, "every discovered dependency follows the requested ones in the record as a regular dependency - also when the same key was requested before with other flags");
 #endif
   VF_ASSERT(R.result.builtAt == E && R.state == RuleInfo::StateKind::Complete, "R is complete in this build");
   VF_ASSERT(R.result.computedAt == g_cAfter && R.result.value[0] == g_valAfter, "finishing does not alter the value or computedAt that completion recorded");
